@@ -32,7 +32,8 @@ ASSUMPTIONS = [
 REQUIRED = {"table.predicates": 20, "table.partition": 14, "table.inner_outer": 15,
             "inject.scenario": {"quick": 1400, "thorough": 1400}, "inject.feature": {"quick": 500, "thorough": 3000},
             "inject.rule": {"quick": 500, "thorough": 3000}, "inject.outline": {"quick": 250, "thorough": 1200},
-            "runs.containers_checked": {"quick": 20000, "thorough": 1000000}, "history.latest_run_only": {"quick": 200, "thorough": 8000}}
+            "runs.containers_checked": {"quick": 20000, "thorough": 1000000}, "history.latest_run_only": {"quick": 200, "thorough": 8000},
+            "history.reset_leaves_nothing": {"quick": 100, "thorough": 4000}}
 REQUIRED_SEEN = {"feature_status": ["passed", "failed", "error", "skipped", "untested", "hook_error"],
                  "scenario_status": ["passed", "failed", "error", "skipped", "untested", "hook_error"]}
 EXHAUSTIVE = True
@@ -257,7 +258,7 @@ def real_runs(mon, lab, rng, n, tier):
         gen = {"outcomes": OUTCOMES + ["abort"], "weights": {"abort": 0.3}} if i % 5 == 0 else {}
         gen["p_empty_examples"] = 0.0
         gen["p_stepless"] = 0.0     # childless scenarios are out of scope and would poison their parents
-        case = RB.gen_case(rng, gen=gen, p_stop=0.3, p_dry=0.15)
+        case = RB.gen_case(rng, gen=gen, p_stop=0.3, p_dry=0.15, p_user_skip=0.1)
         ref = {"case": case}
         rep = CheckingReporter(mon, lab, ref)
         mode = i % 4
@@ -298,6 +299,17 @@ def real_runs(mon, lab, rng, n, tier):
                             pass
             kw.setdefault("hook_plugins", []).append(reader)
             mon.count("runs.with_status_reading_hooks")
+        if i % 7 == 3:
+            # a "fail fast" environment.py: once a scenario failed, skip() is called on things that ALREADY ran (the scenario
+            # itself, its rule, its feature) -- what was executed keeps the status its children give it
+            which = rng.choice(["scenario", "feature", "rule"])
+
+            def fail_fast(state, context, name, elem, tag, which=which):
+                if name == "after_scenario" and elem.status.has_failed():
+                    target = elem if which == "scenario" else (getattr(context, "rule", None) if which == "rule" else None)
+                    (target or context.feature).skip(reason="fail fast")
+            kw.setdefault("hook_plugins", []).append(fail_fast)
+            mon.count("runs.with_skip_called_after_failure")
         obs = lab.run(case["program"], args=case["args"], reporters=lambda config: [rep], **kw)
         mon.case(("run", RB.strip_case(case)), True)
         if obs.escaped is not None:
@@ -366,6 +378,62 @@ def histories(mon, lab, rng, n):
                       lambda: RB.witness(case, scenario=name, got=got, want=sorted(want), attempts=attempt.get(name), history=hist))
         RB.check_rollup_live(mon, lab, obs, case, prefix="history.rollup")
 
+def reset_histories(mon, lab, rng, n):
+    """run 1 (failures, hook faults, environment skips) -> reset_model(features) -> every element is untested again, nothing of
+    run 1 is left -> run 2 with a different outcome table, cut short or complete: statuses are those of run 2 alone."""
+    from behave.model import reset_model
+    for i in range(n):
+        outs = [o for o in OUTCOMES if o not in ("ki",)]
+        case = RB.gen_case(rng, p_dry=0.0, p_stop=0.2, p_user_skip=0.3,
+                           gen={"outcomes": outs, "p_nonpass": 0.4, "max_rules": 2, "p_stepless": 0.0, "p_empty_examples": 0.0})
+        program = case["program"]
+        table2 = {t: (oc if oc in ("undefined", "conv") else rng.choice(["pass", "pass", "pass", "fail", "error"]))
+                  for t, oc in program["outcomes"].items()}
+        after_reset = {}
+        second = {}
+        stop2 = rng.random() < 0.5
+
+        def second_run(st):
+            reset_model(st.features)
+            for f in st.features:
+                after_reset[("feature", f.name)] = (RB_sname(f), bool(f.should_skip), bool(f.hook_failed))
+                for r in f.rules:
+                    after_reset[("rule", r.name)] = (RB_sname(r), bool(r.should_skip), bool(r.hook_failed))
+                for sc in f.walk_scenarios(with_outlines=True):
+                    after_reset[("scenario", sc.name)] = (RB_sname(sc), bool(getattr(sc, "should_skip", False)),
+                                                          bool(getattr(sc, "hook_failed", False)))
+                    if not isinstance(sc, lab.ScenarioOutline):
+                        for stp in sc.all_steps:
+                            after_reset[("step", sc.name, stp.line, stp.name)] = (RB_sname(stp), False, bool(stp.hook_failed))
+            st.calls[:] = []
+            st.hooks[:] = []
+            st.outcomes = table2
+            st.user_skip = set()
+            st.config.stop = stop2
+            second["verdict"] = st.runner.run()
+        obs = lab.run(program, args=case["args"], second_run=second_run)
+        mon.case(("reset", RB.strip_case(case), sorted(table2.items())[:6], stop2), True)
+        W = lambda **kw: RB.witness(case, second_table={k: v for k, v in list(table2.items())[:8]}, **kw)
+        if obs.escaped is not None:
+            mon.check("history.no_exception_escapes", False, lambda: W(escaped=repr(obs.escaped)))
+            continue
+        bad = {str(k): v for k, v in after_reset.items() if v != ("untested", False, False)}
+        mon.check("history.reset_leaves_nothing", not bad, lambda: W(not_reset=dict(list(bad.items())[:6])))
+        cfg2 = dict(case["cfg"], stop=stop2)
+        pred = runmodel.predict({"features": program["features"], "outcomes": table2}, cfg2)
+        for name, want in pred.scen_status.items():
+            got = obs.elem_status.get(name)
+            mon.check("history.latest_run_only", got in want,
+                      lambda: W(scenario=name, got=got, want=sorted(want), after="reset_model + second run", stop_in_run2=stop2))
+        RB.check_rollup_live(mon, lab, obs, case, prefix="history.rollup")
+
+
+def RB_sname(x):
+    try:
+        return x.status.name
+    except Exception as ex:
+        return "EXCEPTION %s" % type(ex).__name__
+
 
 def run(spec, mon):
     from ..lab.inproc import RunLab
@@ -378,6 +446,7 @@ def run(spec, mon):
     inject(mon, lab, tier, shard, of)
     real_runs(mon, lab, rng, 150 if tier == "quick" else 6000, tier)
     histories(mon, lab, rng, 25 if tier == "quick" else 800)
+    reset_histories(mon, lab, rng, 15 if tier == "quick" else 500)
     if shard == 0:
         mon.sample({"injected": {"kind": "feature", "children": ["passed", "skipped", "hook_error"], "expected": "error"}}, force=True)
 
